@@ -22,25 +22,30 @@ def tiff_life(timeout=1500):
     h.bounds = dict(calls="sub-sequences of set,start,append,append,stop,stop + close", write_fail_index="-1..8 one-shot and persistent", create_fail="yes/no")
     return h
 
-def tiffjson_life(timeout=1500, meta=1):
+def tiffjson_life(timeout=1500, meta=1, mask=None):
     fsz = 16 + 1 * (8 + 320 + 8 + 8 + 8 + 16 + 16) + 64
-    h = tc.tiff_h(H, VERIF, "tiffjson_life_m%d" % meta, ["MODE=16", "NFRAMES=1", "DESC=12", "FILE_URI=0", "SBS_META=%d" % meta, "LIFE_SHORT=1"], unwind=18, timeout=timeout,
+    h = tc.tiff_h(H, VERIF, "tiffjson_life_m%d" % meta, ["MODE=16", "NFRAMES=1", "DESC=12", "FILE_URI=0", "SBS_META=%d" % meta, "LIFE_SHORT=1"] + (["LIFE_MASK=%d" % mask] if mask is not None else []), unwind=18, timeout=timeout,
                   unwindset={"file_write.0": fsz + 1}, rec_violation=True, composite=True)
     h.est_gb = 18
+    if mask is not None:
+        h.name += "_k%x" % mask
     h.what = "tiff-json composite (init/append/stop/destroy translated from side-by-side-tiff.cpp, set/start modelled after the source, guarded by a source-text check) around the translated tiff writer, through the HAL: set? start? append? stop? close with failing file_create and write failures at symbolic indices (metadata.json and data.tif)"
     h.bounds = dict(calls="sub-sequences of set,start,append,stop + close", write_fail_index="-1..8 one-shot and persistent", create_fail="yes/no", metadata="present" if meta else "absent")
     return h
 
 def harnesses(tier, findings):
-    if tier == "probe":
-        return [tiffjson_life(2400, 1), tiffjson_life(2400, 0)]
+    if tier == "prefix":
+        # sanity: the hand model of the composite's start WITHOUT the state assignments of fix 51bb9bf must fail
+        h = tiffjson_life(900, 1, 0xF); h.defines.append("SBS_PRE_FIX=1"); h.name += "_prefix"
+        return [h]
+    comp = [tiffjson_life(900, 1, m) for m in range(16)] + [tiffjson_life(900, 0)]
     if tier == "quick":
-        return [life(1, 2, 1500), life(2, 1), tiff_life()]
-    return [life(1, 2, 3000), life(2, 2, 3000), tiff_life(3000)]
+        return [life(1, 2, 1500), life(2, 1), tiff_life()] + comp
+    return [life(1, 2, 3000), life(2, 2, 3000), tiff_life(3000)] + comp + [tiffjson_life(900, 0, m) for m in range(16)]
 
 META = dict(
     level="model_checking",
     bounds=dict(quick="raw and trash: every sub-sequence of set,start,append,append,stop,stop then close; every open/pwrite fault index", thorough="every sub-sequence of set,start,append,append,stop,stop,set,start,append,stop then close"),
-    outside="the tiff-json composite (std::filesystem in set/start is not translatable); fault kinds other than open()==-1, pwrite()==-1 and pwrite()==0; more than one device sharing descriptors",
+    outside="tiff-json: side_by_side_tiff_set/_start (std::filesystem) are modelled by hand after the source (the run refuses when that text changes): folder creation and path handling are not decided, and the life-cycle template of the composite is the short one (set? start? append? stop? close, all 16 sub-sequences as separate instances); fault kinds other than open()==-1, pwrite()==-1 and pwrite()==0; more than one device sharing descriptors",
     assumptions=["syscall model env/fs_model.c; open returns the lowest free descriptor number (POSIX)", "typed memset/memcpy rewrite and case-split allocation sizes", "logger empty"],
 )
